@@ -89,6 +89,10 @@ class Prog(object):
             elif op == "with":
                 self.features.add("with:" + st[1])
                 out.append(("with", sid, st[1], self._block(st[2])))
+            elif op == "ovl":
+                # two AsyncContexts whose lifetimes overlap without nesting: entered c1, c2 - left c1, c2
+                self.features.add("with:ovl")
+                out.append(("ovl", sid, self._block(st[1]), self._block(st[2])))
             elif op == "sync":
                 self.features.add("sync")
                 out.append(("sync", sid, self._task(st[1]), st[2]))
@@ -160,6 +164,10 @@ class Prog(object):
         if op == "dbi":
             self.features.add("dbi")
             return ("dbi", lid, lf[1])
+        if op == "bt":
+            self.features.add("bt")
+            self.kinds.add(lf[1])
+            return ("bt", lid, lf[1])
         raise ValueError(lf)
 
 
@@ -301,6 +309,9 @@ class R1(object):
                     if ck in ("N", "Xp", "Xr", "Xq"):
                         self.unsupported = ck
                     self.block(tc, st[3], rec, made)
+            elif op == "ovl":
+                self.block(tc, st[2], rec, made)
+                self.block(tc, st[3], rec, made)
             elif op == "sync":
                 r = self.task(st[2])
                 if r[2] > self.now:
@@ -394,6 +405,9 @@ class R1(object):
         if op == "dd":
             self.unsupported = "dd"
             return ("v", ("dd?",), 0)
+        if op == "bt":
+            self.unsupported = "bt"
+            return ("v", None, self.now + 1)
         if op == "dbi":
             self.unsupported = "dbi"
             return ("v", ("dbi", lf[1]), self.now + 1)
